@@ -288,24 +288,25 @@ register("C01", lean_modules=['FsModel.PFlood', 'FsModel.Descent', 'FsModel.Tilt
          sections={"elev", "update"} | GRAPH_SECTIONS, nontrivial=raised_or_rerouted, tags=tags_flow,
          rule="random grids (raster 3 connectivities/border mixes, profile, mesh) x elevation families (ties, plateaus, zero, subnormal, huge, nested cones) x masks x base-level sets x six resolver variants [+ multi router]; non-trivial = at least one node was raised by the resolver",
          trusted_base=FLOW_TB)
-register("C02", lean_modules=["FsModel.PFlood", "FsProofs.Properties.C02"],
-         theorems=["Fs.C02.pflood_ge_input", "Fs.C02.pflood_fixed", "Fs.C02.pflood_ge_spill", "Fs.C02.pflood_le_spill", "Fs.C02.run_erase", "Fs.C02.ubInit_erase", "Fs.C02.ubInit_inv", "Fs.pflood_parent", "Fs.pflood_complete"], gen=gen_resolved, oracles=[oracle.c02], sections={"elev"}, nontrivial=raised_or_rerouted, tags=tags_flow,
+register("C02", lean_modules=["FsModel.PFlood", "FsProofs.Properties.C02", "FsProofs.Properties.C02MstRouter", "FsProofs.Properties.C02MstExample", "FsProofs.Properties.Closed"],
+         theorems=["Fs.C02Mst.resolve_c02_singleRouter", "Fs.C02Mst.resolve_ge_input", "Fs.C02Mst.resolve_fixed", "Fs.C02Mst.resolve_fixed_above", "Fs.C02Mst.resolve_exact_shape", "Fs.C02Mst.resolve_chain", "Fs.C02Mst.resolve_ge_spill_carve", "Fs.C02Mst.tilt_shape", "Fs.Closed.raster_C02_mst",
+                   "Fs.C02.pflood_ge_input", "Fs.C02.pflood_fixed", "Fs.C02.pflood_ge_spill", "Fs.C02.pflood_le_spill", "Fs.C02.run_erase", "Fs.C02.ubInit_erase", "Fs.C02.ubInit_inv", "Fs.pflood_parent", "Fs.pflood_complete"], gen=gen_resolved, oracles=[oracle.c02], sections={"elev"}, nontrivial=raised_or_rerouted, tags=tags_flow,
          rule="same scenario family as C01; oracle = independent Bellman minimax spill level; non-trivial = some node raised",
          trusted_base=FLOW_TB)
-register("C03", lean_modules=["FsProofs.Properties.C03", "FsProofs.Properties.C03Cons"], theorems=["Fs.C03.accumulate_recurrence", "Fs.C03.sweep_recurrence", "Fs.C03.accStep_get", "Fs.C03.contrib_nonneg", "Fs.C03.sweep_conservation", "Fs.C03.accumulate_conservation"],
+register("C03", lean_modules=["FsProofs.Properties.C03", "FsProofs.Properties.C03Cons", "FsProofs.Properties.C03E2E", "FsProofs.Properties.Closed"], theorems=["Fs.C03.multi_accumulate_recurrence", "Fs.C03.multi_accumulate_conservation", "Fs.C03.multi_accumulate_nonneg", "Fs.C03.single_accumulate_recurrence", "Fs.C03.single_accumulate_conservation", "Fs.C03.single_accumulate_nonneg", "Fs.Closed.raster_C03_multi_conservation", "Fs.Closed.raster_C03_single_conservation", "Fs.C03.accumulate_recurrence", "Fs.C03.sweep_recurrence", "Fs.C03.accStep_get", "Fs.C03.contrib_nonneg", "Fs.C03.sweep_conservation", "Fs.C03.accumulate_conservation"],
          gen=lambda r, t: gen_any_ops(r, t, acc=True), oracles=[oracle.c03], sections={"acc", "acc_overloads_agree"},
          nontrivial=has_pits_or_multi, tags=tags_flow,
          rule="routed graphs of all operator families x scalar/array sources (negative values included); exact-rational recurrence and conservation on the implementation's doubles; non-trivial = graph has a confluence or multiple receivers",
          trusted_base=FLOW_TB + ["accumulation theorems are over exact arithmetic (commutative ring); rounding is covered only by the bit-exact correspondence and the rational oracle with an error bound"])
-register("C04", lean_modules=['FsModel.Router', 'FsProofs.Properties.C04'], theorems=['Fs.Router.route_spec', 'Fs.C04.rows', 'Fs.C04.terminal_row', 'Fs.C04.routed_row', 'Fs.C04.recv_lower'], gen=gen_single, oracles=[oracle.c04], sections={"recv", "rdist", "rweight", "rcount"}, nontrivial=has_pits_or_multi, tags=tags_flow,
+register("C04", lean_modules=['FsModel.Router', 'FsProofs.Properties.C04', 'FsProofs.Properties.Closed'], theorems=['Fs.Closed.raster_C04', 'Fs.Closed.raster_hlow', 'Fs.Closed.rasterTopo_ok', 'Fs.Router.route_spec', 'Fs.C04.rows', 'Fs.C04.terminal_row', 'Fs.C04.routed_row', 'Fs.C04.recv_lower'], gen=gen_single, oracles=[oracle.c04], sections={"recv", "rdist", "rweight", "rcount"}, nontrivial=has_pits_or_multi, tags=tags_flow,
          rule="single router (sequential and parallel), raw and flooded fields; non-trivial = at least two nodes share a receiver", trusted_base=FLOW_TB)
-register("C05", lean_modules=["FsProofs.Properties.C05"], theorems=["Fs.C05.terminal_row", "Fs.C05.pit_row", "Fs.C05.receivers_row", "Fs.C05.weights_spec", "Fs.C05.foldl_max_spec"],
+register("C05", lean_modules=["FsProofs.Properties.C05", "FsProofs.Properties.C03E2E"], theorems=["Fs.C05.multiRouter_weights", "Fs.C05.multiRouter_weights_terminal", "Fs.C05.multiRouter_row_cases", "Fs.C05.terminal_row", "Fs.C05.pit_row", "Fs.C05.receivers_row", "Fs.C05.weights_spec", "Fs.C05.foldl_max_spec"],
          gen=gen_multi, oracles=[oracle.c05], cause=oracle.c05_cause, sections={"recv", "rdist", "rweight", "rcount"},
          nontrivial=has_pits_or_multi, tags=tags_flow,
          rule="multi router x exponents {0, .5, 1, 1.1, 2, 8}, exponent changed between updates, flooded fields; non-trivial = some node has several receivers",
          trusted_base=FLOW_TB + ["weights theorem is over an ordered field with an abstract pow satisfying pow 1 = 1, 0 <= pow x"])
 register("C06", lean_modules=['FsModel.Donors', 'FsModel.Dfs', 'FsProofs.DfsPerm', 'FsModel.Bfs', 'FsProofs.Properties.C06', 'FsProofs.Properties.C06Bfs', 'FsProofs.Properties.C06Kahn', 'FsProofs.Properties.C06Graphs', 'FsProofs.Properties.ImplCheck', 'FsProofs.Properties.Closed'],
-         theorems=['Fs.ImplCheck.checkC06_sound', 'Fs.ImplCheck.checkDfs_iff', 'Fs.ImplCheck.checkBfs_iff', 'Fs.C06.single_donors_inverse', 'Fs.C06.single_dfs', 'Fs.C06.singleRouter_bfs', 'Fs.C06.multi_donors_inverse', 'Fs.C06.multi_dfs', 'Fs.C06.multi_bfs',
+         theorems=['Fs.Closed.raster_C06_single', 'Fs.Closed.raster_C06_multi', 'Fs.ImplCheck.checkC06_sound', 'Fs.ImplCheck.checkDfs_iff', 'Fs.ImplCheck.checkBfs_iff', 'Fs.C06.single_donors_inverse', 'Fs.C06.single_dfs', 'Fs.C06.singleRouter_bfs', 'Fs.C06.multi_donors_inverse', 'Fs.C06.multi_dfs', 'Fs.C06.multi_bfs',
                    'Fs.C06.mem_donors', 'Fs.C06.mem_donors_ne', 'Fs.C06.donors_nodup', 'Fs.C06.dfs_perm', 'Fs.C06.dfs_recv_before', 'Fs.C06.single_bfs', 'Fs.C06.bfs_levels_spec', 'Fs.C06.kahn_spec',
                    'Fs.C06.singleRouter_graph', 'Fs.C06.multi_kdag', 'Fs.C06.multi_dag',
                    'Fs.Donors.mem_donors', 'Fs.Donors.donors_nodup', 'Fs.Dfs.dfs_recv_before', 'Fs.Dfs.dfs_perm', 'Fs.Bfs.next_level_receivers'], gen=lambda r, t: gen_any_ops(r, t), oracles=[oracle.c06], sections={"dcount", "donors", "dfs", "bfs", "levels", "rcount", "recv"},
@@ -496,8 +497,8 @@ def c08_runner(P, exe, model_ok, rng, tier, replay=None):
     return res
 
 
-register("C08", lean_modules=['FsModel.Iter', 'FsProofs.Properties.C08', 'FsProofs.Properties.C07Sym'],
-         theorems=['Fs.Iter.skipFwd_log_in_range', 'Fs.C08.multi_fits', 'Fs.C08.single_fits', 'Fs.C08.multi_recv_row', 'Fs.C08.multi_donors_row', 'Fs.C08.single_donors_row', 'Fs.C08.multi_orders', 'Fs.C08.single_orders',
+register("C08", lean_modules=['FsModel.Iter', 'FsProofs.Properties.C08', 'FsProofs.Properties.C07Sym', 'FsProofs.Properties.Closed'],
+         theorems=['Fs.Iter.skipFwd_log_in_range', 'Fs.Closed.raster_C08_fits', 'Fs.C08.multi_fits', 'Fs.C08.single_fits', 'Fs.C08.multi_recv_row', 'Fs.C08.multi_donors_row', 'Fs.C08.single_donors_row', 'Fs.C08.multi_orders', 'Fs.C08.single_orders',
                    'Fs.C08.levelOffsets_fit', 'Fs.C08.accumulate_no_write_outside', 'Fs.C08.basins_no_write_outside', 'Fs.C08.accumulate_frame', 'Fs.C08.basins_frame',
                    'Fs.C07.rasterNbIdx_range', 'Fs.C07.rasterNbIdx_length', 'Fs.C07.rasterNbIdx_count_symm'], gen=gen_c08, runner=c08_runner, oracles=[], sections=None, nontrivial=lambda si: True, tags=tags_flow, level="proof",
          rule="scenario sets of the other properties' generators (grids incl. malformed, all operator families, accumulate, basins, eroders) executed under ASan+UBSan with _GLIBCXX_ASSERTIONS and asserts enabled; every distinct (kind, file:line) report is a failure; index-logic theorems cover all sizes",
@@ -608,28 +609,28 @@ def _lvl(pid, level, text, technique=None, note=None):
 
 
 _lvl("C01", "proof",
-     "END-TO-END theorem on the executed composition priority flood + single-direction router (Fs.C01.C01_pflood_singleRouter, any grid size / topology handed over by the grid, any elevations, masks and base-level sets, sequential or multi-threaded router variant; assumptions: strict-weak-order laws of the comparison, x < nextUp x, slope towards a lower neighbour above -DBL_MAX, neighbour lists in range and symmetric, base-level list duplicate-free): (1) base-level and masked nodes are their own receiver, (2) every proper step goes to an unmasked neighbour with strictly lower RETURNED elevation, (3) every node connected through unmasked neighbours to an unmasked base level reaches a base-level node after finitely many receiver steps and stops there, (4) no cycle. It rests on pflood_terminates (potential-function proof that the flood empties both queues within its fuel n+1), pflood_parent / pflood_complete (flood invariants), C04.routed_row (router scan) and C06.singleRouter_graph. Also step_wf (descent => well-founded) and tilt_descends (strict descent after the spanning-tree tilt pass). C01_pflood_multiRouter: the same for flood + multiple-direction router (every proper receiver is an unmasked neighbour with strictly lower returned elevation; a node connected to a base level is never a pit and all its receivers stay connected; 'flows to' is well-founded, no cycle, every path has fewer than n steps; every maximal path from a connected node ends at a base level, and one exists). resolve_c01_singleRouter: the same for the executed SPANNING-TREE resolver (Fs.Mst.resolve with Kruskal, carve or basic) after the single router: base-level and masked nodes stay their own receiver; the re-routed receiver table is again a forest (so the rebuilt donors/orders are valid by C06); every proper step strictly decreases the RETURNED (tilted) elevation; carve never hangs; every unmasked node whose basin is reached from the root - in particular every node connected through unmasked neighbours to an unmasked base level (resolve_c01_connected) - ends at a base-level node. Built from routeCarve_spec (path reversal), routeBasic_spec, the fold over tree edges (rerouted_forest / rerouted_base), orient_spec + orient_reached_iff (the executed orientation returns an arborescence from the root: each reached basin is the head of exactly one edge, depths increase, reached = connected to the root in the tree), kruskal_keeps_virtual, connect_basins (C15) and tilt_descends; extra assumptions: elevations above -DBL_MAX (a real pass at -DBL_MAX would tie with the virtual edges - counterexample in C01MstExample), arrays fit in memory, the weight-sorted permutation check the harness performs. For Boruvka the same conclusions hold under the two tree facts the run-time certificate (C15) establishes per run (forest, virtual edges kept): resolve_c01_tree.",
+     "END-TO-END theorem on the executed composition priority flood + single-direction router (Fs.C01.C01_pflood_singleRouter, any grid size / topology handed over by the grid, any elevations, masks and base-level sets, sequential or multi-threaded router variant; assumptions: strict-weak-order laws of the comparison, x < nextUp x, slope towards a lower neighbour above -DBL_MAX, neighbour lists in range and symmetric, base-level list duplicate-free): (1) base-level and masked nodes are their own receiver, (2) every proper step goes to an unmasked neighbour with strictly lower RETURNED elevation, (3) every node connected through unmasked neighbours to an unmasked base level reaches a base-level node after finitely many receiver steps and stops there, (4) no cycle. It rests on pflood_terminates (potential-function proof that the flood empties both queues within its fuel n+1), pflood_parent / pflood_complete (flood invariants), C04.routed_row (router scan) and C06.singleRouter_graph. Also step_wf (descent => well-founded) and tilt_descends (strict descent after the spanning-tree tilt pass). C01_pflood_multiRouter: the same for flood + multiple-direction router (every proper receiver is an unmasked neighbour with strictly lower returned elevation; a node connected to a base level is never a pit and all its receivers stay connected; 'flows to' is well-founded, no cycle, every path has fewer than n steps; every maximal path from a connected node ends at a base level, and one exists). resolve_c01_singleRouter: the same for the executed SPANNING-TREE resolver (Fs.Mst.resolve with Kruskal, carve or basic) after the single router: base-level and masked nodes stay their own receiver; the re-routed receiver table is again a forest (so the rebuilt donors/orders are valid by C06); every proper step strictly decreases the RETURNED (tilted) elevation; carve never hangs; every unmasked node whose basin is reached from the root - in particular every node connected through unmasked neighbours to an unmasked base level (resolve_c01_connected) - ends at a base-level node. Built from routeCarve_spec (path reversal), routeBasic_spec, the fold over tree edges (rerouted_forest / rerouted_base), orient_spec + orient_reached_iff (the executed orientation returns an arborescence from the root: each reached basin is the head of exactly one edge, depths increase, reached = connected to the root in the tree), kruskal_keeps_virtual, connect_basins (C15) and tilt_descends; extra assumptions: elevations above -DBL_MAX (a real pass at -DBL_MAX would tie with the virtual edges - counterexample in C01MstExample), arrays fit in memory, the weight-sorted permutation check the harness performs. For Boruvka the same conclusions hold under the two tree facts the run-time certificate (C15) establishes per run (forest, virtual edges kept): resolve_c01_tree. Certificate: on every scenario the model driver runs the Lean checker checkFlow on the receivers and elevation REPORTED BY THE C++ (soundness checkFlow_sound / checkFlow_paths: accepted => terminal nodes self, strict descent to unmasked (neighbour) nodes, no pit among nodes connected to a base level, hence every maximal path ends at a base level). raster_C01_pflood_single / _multi / raster_C01_mst: Closed corollaries (Closed.lean): the topology hypotheses (neighbours in range, row width <= n_neighbors_max, symmetry with multiplicity, positive distances, slope-above-lowest on neighbour slots) are DISCHARGED for the topology `rasterTopo` the executed raster model reports, for every raster with >= 2 nodes per axis and positive spacing over any ordered field - so the statements below hold for every such raster, mask, base-level set and elevation with no hypothesis about the grid left; all their hypotheses are shown satisfiable on a concrete 3x3 instance over Q (non-vacuity).",
      "Lean 4 end-to-end theorems on the executed flood+router and spanning-tree resolver (loop invariants, potential-function termination, path-reversal / forest / arborescence proofs, composition) + bit-exact differential correspondence + reachability oracle")
 _lvl("C02", "proof",
-     "Theorems about the executed priority flood Fs.Flow.pflood (any grid size, any elevations over a linear order with strictly increasing monotone nextUp): pflood_ge_input (never below the input), pflood_fixed (bit-identical at base-level and masked nodes), pflood_ge_spill (every closed node is reached from an unmasked base level by an unmasked-neighbour path whose input elevations never exceed its filled elevation: f >= spill level), pflood_le_spill (for every such path and every bound v on the input along it, f <= v raised by n+2 floating-point increments: f <= spill + (n+2) ulps). They are obtained from the invariant proofs on the ghost-instrumented loop (Fs.UB) through an erasure theorem (run_erase, ubInit_erase: forgetting the ghost counters turns each instrumented step into the executed step). 'closed' = reached by the flood; that all unmasked-connected nodes are closed when the loop exits by itself is pflood_complete. The spanning-tree variants (Kruskal/Boruvka x basic/carve) are modelled statement by statement, compared bit for bit and checked by the independent Bellman minimax oracle (two-sided bound, agreement of all variants) - not proved.",
+     "Theorems about the executed priority flood Fs.Flow.pflood (any grid size, any elevations over a linear order with strictly increasing monotone nextUp): pflood_ge_input (never below the input), pflood_fixed (bit-identical at base-level and masked nodes), pflood_ge_spill (every closed node is reached from an unmasked base level by an unmasked-neighbour path whose input elevations never exceed its filled elevation: f >= spill level), pflood_le_spill (for every such path and every bound v on the input along it, f <= v raised by n+2 floating-point increments: f <= spill + (n+2) ulps). They are obtained from the invariant proofs on the ghost-instrumented loop (Fs.UB) through an erasure theorem (run_erase, ubInit_erase: forgetting the ghost counters turns each instrumented step into the executed step). 'closed' = reached by the flood; that all unmasked-connected nodes are closed when the loop exits by itself is pflood_complete. The spanning-tree variants (Kruskal/Boruvka x basic/carve) are modelled statement by statement, compared bit for bit and checked by the independent Bellman minimax oracle (two-sided bound, agreement of all variants) - not proved. Spanning-tree variants (C02Mst*.lean, Kruskal, carve and basic): resolve_ge_input (never below the input), resolve_fixed / _self / _above (bit-identical at base-level and masked nodes, at every self-receiver, and wherever the node was already above its new receiver's final level: terrain that already drains keeps its elevation), resolve_exact_shape / resolve_chain (every raised node is exactly t floating-point increments above the INPUT elevation of the node t links down its new flow path, t + 1 <= n: 'at most one increment per grid node'), resolve_ge_spill_carve (carve: the new flow path is an unmasked-neighbour path to a base level along which the input never exceeds the node's returned elevation: >= spill level); raster_C02_mst closes them over rasters. The upper bound 'the highest input on the new flow path IS the spill level' (bottleneck property of the minimum spanning tree) and the basic variant's lower bound are not proved: independent minimax oracle + agreement of all variants.",
      "Lean 4 loop-invariant proofs (ghost-instrumented flood + erasure to the executed definitions) + bit-exact correspondence + independent minimax-spill oracle")
 _lvl("C03", "proof",
-     "Theorems about the executed definitions Fs.Flow.accStep/accumulate instantiated over an arbitrary field: accStep_get, sweep_recurrence / accumulate_recurrence (for every graph and every sweep order - no node after one of its proper receivers, which C06 proves for the executed orders - every entry equals source*area plus the accumulated values of its donors weighted by their partition fractions; any size, single or multiple receivers), sweep_conservation / accumulate_conservation (if every non-terminal node's weights sum to one and it is not its own receiver - C05 - the sum over terminal nodes equals the source integrated over the grid), contrib_nonneg (non-negative source and weights => value >= local contribution). The Float instance of the same definitions is compared bit for bit with all four C++ overloads (which must agree with each other); rounding is covered by the exact-rational oracle with an error bound.",
+     "Theorems about the executed definitions Fs.Flow.accStep/accumulate instantiated over an arbitrary field: accStep_get, sweep_recurrence / accumulate_recurrence (for every graph and every sweep order - no node after one of its proper receivers, which C06 proves for the executed orders - every entry equals source*area plus the accumulated values of its donors weighted by their partition fractions; any size, single or multiple receivers), sweep_conservation / accumulate_conservation (if every non-terminal node's weights sum to one and it is not its own receiver - C05 - the sum over terminal nodes equals the source integrated over the grid), contrib_nonneg (non-negative source and weights => value >= local contribution). The Float instance of the same definitions is compared bit for bit with all four C++ overloads (which must agree with each other); rounding is covered by the exact-rational oracle with an error bound. multi_/single_accumulate_recurrence, _conservation, _nonneg (C03E2E.lean): the recurrence, conservation over terminal nodes and the lower bound for non-negative sources hold for the graphs the executed routers build, with only topology hypotheses left; raster_C03_*_conservation: Closed corollaries (Closed.lean): the topology hypotheses (neighbours in range, row width <= n_neighbors_max, symmetry with multiplicity, positive distances, slope-above-lowest on neighbour slots) are DISCHARGED for the topology `rasterTopo` the executed raster model reports, for every raster with >= 2 nodes per axis and positive spacing over any ordered field - so the statements below hold for every such raster, mask, base-level set and elevation with no hypothesis about the grid left; all their hypotheses are shown satisfiable on a concrete 3x3 instance over Q (non-vacuity).",
      "Lean 4 induction over the sweep + sum-exchange conservation proof (Mathlib List.sum) on the executed definitions + bit-exact correspondence of the four overloads + exact-rational oracle")
 _lvl("C04", "proof",
-     "END-TO-END theorems on the executed Fs.Flow.singleRouter (sequential and multi-threaded variant, any topology): rows (each node has exactly one receiver, weight one), terminal_row (base-level and masked nodes are their own receiver at distance zero), routed_row (every other node satisfies RoutedSpec: own receiver exactly when no unmasked neighbour is strictly lower, otherwise an unmasked strictly lower neighbour with its grid distance whose slope no other lower unmasked neighbour exceeds), recv_lower; built on route_spec (fold invariant of the neighbour scan over any strict weak order). Oracle recomputes slopes on the implementation's output.",
+     "END-TO-END theorems on the executed Fs.Flow.singleRouter (sequential and multi-threaded variant, any topology): rows (each node has exactly one receiver, weight one), terminal_row (base-level and masked nodes are their own receiver at distance zero), routed_row (every other node satisfies RoutedSpec: own receiver exactly when no unmasked neighbour is strictly lower, otherwise an unmasked strictly lower neighbour with its grid distance whose slope no other lower unmasked neighbour exceeds), recv_lower; built on route_spec (fold invariant of the neighbour scan over any strict weak order). Oracle recomputes slopes on the implementation's output. raster_C04: Closed corollaries (Closed.lean): the topology hypotheses (neighbours in range, row width <= n_neighbors_max, symmetry with multiplicity, positive distances, slope-above-lowest on neighbour slots) are DISCHARGED for the topology `rasterTopo` the executed raster model reports, for every raster with >= 2 nodes per axis and positive spacing over any ordered field - so the statements below hold for every such raster, mask, base-level set and elevation with no hypothesis about the grid left; all their hypotheses are shown satisfiable on a concrete 3x3 instance over Q (non-vacuity). The earlier form of the slope hypothesis (quantified over arbitrary distances) was unsatisfiable over a field and has been replaced by HLow / HSlope (neighbour slots only), which raster_hlow proves for every raster.",
      "Lean 4 fold-invariant proof of the router scan lifted to the executed router + bit-exact correspondence + slope oracle")
 _lvl("C05", "proof",
-     "Theorems about the executed definitions Fs.Flow.multiRow / multiWeights: terminal_row, pit_row, receivers_row (for ANY scalar instance: base-level/masked nodes and nodes without a strictly lower unmasked neighbour are their own single receiver; otherwise the receivers are exactly the unmasked strictly lower neighbours, once per neighbour slot, in neighbour order, with the grid distances), weights_spec (over any linearly ordered field and an abstract pow with pow 1 p = 1 and 0 <= pow x p: for positive slopes the weights are non-negative, sum to one and equal pow(slope/max slope, p) / c for one positive c, i.e. are proportional to slope^p for a multiplicative pow). Positivity of pow for tiny arguments is deliberately not assumed (D3). The Float instance is compared bit for bit; exponent changes between updates and flooded fields are in the generator.",
+     "Theorems about the executed definitions Fs.Flow.multiRow / multiWeights: terminal_row, pit_row, receivers_row (for ANY scalar instance: base-level/masked nodes and nodes without a strictly lower unmasked neighbour are their own single receiver; otherwise the receivers are exactly the unmasked strictly lower neighbours, once per neighbour slot, in neighbour order, with the grid distances), weights_spec (over any linearly ordered field and an abstract pow with pow 1 p = 1 and 0 <= pow x p: for positive slopes the weights are non-negative, sum to one and equal pow(slope/max slope, p) / c for one positive c, i.e. are proportional to slope^p for a multiplicative pow). Positivity of pow for tiny arguments is deliberately not assumed (D3). The Float instance is compared bit for bit; exponent changes between updates and flooded fields are in the generator. multiRouter_weights / multiRouter_row_cases (C03E2E.lean): END-TO-END on the executed multiRouter over an ordered field with positive neighbour distances: a routed node's weights have the length of its receiver row, are non-negative, sum to one and are pow(slope/max slope, p)/c; terminal rows carry weight [0].",
      "Lean 4 proofs on the executed definitions (list lemmas; ordered-field arithmetic with abstract pow) + bit-exact correspondence + exact-rational weight oracle")
 _lvl("C06", "proof",
-     "END-TO-END theorems on the graphs the executed routers build (any topology in range, any elevations over a strict weak order): single router (both variants): single_donors_inverse (for distinct nodes the donor table is exactly the inverse of the receiver table; donors_nodup), single_dfs (bottom-up order is a permutation of all nodes, every node after its receiver), singleRouter_bfs (breadth-first order is a permutation in non-empty levels, every receiver in a strictly earlier level); the same for ANY graph assembled from a receiver forest (SingleGraph: mem_donors, dfs_perm, dfs_recv_before, single_bfs) - which is how the spanning-tree resolver rebuilds its tables; multi router: multi_donors_inverse (inverse with multiplicity: d is listed among the donors of r once per slot of d's row equal to r), multi_dfs (Kahn-style top-down order reversed: permutation, every node after each of its receivers; kahn_spec), multi_bfs (bfs_levels_spec). Snapshot copies are C16. That the spanning-tree resolver's receiver table is a forest is tied by correspondence + oracle (not proved).",
+     "END-TO-END theorems on the graphs the executed routers build (any topology in range, any elevations over a strict weak order): single router (both variants): single_donors_inverse (for distinct nodes the donor table is exactly the inverse of the receiver table; donors_nodup), single_dfs (bottom-up order is a permutation of all nodes, every node after its receiver), singleRouter_bfs (breadth-first order is a permutation in non-empty levels, every receiver in a strictly earlier level); the same for ANY graph assembled from a receiver forest (SingleGraph: mem_donors, dfs_perm, dfs_recv_before, single_bfs) - which is how the spanning-tree resolver rebuilds its tables; multi router: multi_donors_inverse (inverse with multiplicity: d is listed among the donors of r once per slot of d's row equal to r), multi_dfs (Kahn-style top-down order reversed: permutation, every node after each of its receivers; kahn_spec), multi_bfs (bfs_levels_spec). Snapshot copies are C16. That the spanning-tree resolver's receiver table is a forest is tied by correspondence + oracle (not proved). Certificate: the model driver runs checkC06 on the donors / dfs / bfs tables REPORTED BY THE C++ at every update (soundness checkC06_sound; checkDfs_iff / checkBfs_iff: the checkers are exact). raster_C06_single / raster_C06_multi: Closed corollaries (Closed.lean): the topology hypotheses (neighbours in range, row width <= n_neighbors_max, symmetry with multiplicity, positive distances, slope-above-lowest on neighbour slots) are DISCHARGED for the topology `rasterTopo` the executed raster model reports, for every raster with >= 2 nodes per axis and positive spacing over any ordered field - so the statements below hold for every such raster, mask, base-level set and elevation with no hypothesis about the grid left; all their hypotheses are shown satisfiable on a concrete 3x3 instance over Q (non-vacuity).",
      "Lean 4 stack/queue/Kahn-counter invariant proofs, composed with the router theorems, on the executed definitions + bit-exact correspondence + table-consistency oracle")
 _lvl("C07", "proof",
      "Theorems about the executed grid model with the tables regenerated from raster_grid.hpp / profile_grid.hpp on every run, for EVERY raster with >= 2 nodes per axis and < 2^63 nodes, every connectivity, loop flags and node: rasterNbIdx_eq_geom (the neighbour indices computed through node code, count table, offset/argument tables and size_t wrap-around arithmetic are exactly the row-major indices of the geometric one-step neighbours - stay inside, wrap only across looped borders, drop otherwise - in the same order), rasterNbIdx_range / rasterNbIdx_length (every neighbour is a node; count accessor = list length <= n_neighbors_max), rasterNbIdx_count_symm / _mem_symm (the relation is symmetric WITH multiplicity - a neighbour met twice across a looped axis of length 2 is met twice from the other side), rasterNbIdx_not_self, rasterNbDist_eq_geom + stepDist_exact / stepDist_field (reported distances are the step length sqrt(dy^2), sqrt(dx^2) or sqrt(dy^2+dx^2) of the geometric offset, in exact arithmetic) and rasterNb_dist_symm (the reverse step has the same distance); the same for the profile grid (profileNbIdx_*); table obligations by decide over the regenerated constants (count_table_spec, codedTuples_spec, offs_valid, offs_neg_perm). Statuses of neighbours, the struct/(row,col) views and cache transparency (cache on/off, shuffled and repeated queries, out-parameter overloads with reused buffers) are tied by the every-accessor correspondence + geometric oracle; rounding of the distances by the bit-exact comparison.",
      "Lean 4 proof over all shapes (axis lemma + omega, negation bijection on offset symbols; decide only over regenerated tables) + translator + every-accessor correspondence + geometric oracle")
 _lvl("C08", "proof",
-     "The LOGIC part of memory safety is proved on the executed model, the rest is sanitizer execution. Theorems: skipFwd_log_in_range (every status read of the filtered iterator's skip loop is at an index < size when the bounds test precedes the filter; conjunct order regenerated from iterators.hpp each run); multi_fits / single_fits (TablesFit: for every topology whose rows are <= n_neighbors_max wide, in range and symmetric with multiplicity - proved for rasters in C07 - every receiver row of the multi router has 1..nmax entries and every donor row <= nmax; single router: exactly 1 receiver and <= nmax+1 donors (the +1 of the donors table is needed: a pit is its own donor); all indices < n; dfs and bfs have exactly n entries < n, <= n non-empty levels, level offsets are nmax-many+1, start at 0, end at n); accumulate_no_write_outside / basins_no_write_outside / *_frame (the sweeps neither read nor write entries >= n). Everything else (use-after-free, lifetime, signed overflow, scratch vectors of the basin graph, eroders) is the sanitizer build: every scenario family of the other properties runs under ASan+UBSan+_GLIBCXX_ASSERTIONS with asserts enabled; each distinct report is a violation. Partial by nature: Lean proves index logic of the model, not absence of UB in C++.",
+     "The LOGIC part of memory safety is proved on the executed model, the rest is sanitizer execution. Theorems: skipFwd_log_in_range (every status read of the filtered iterator's skip loop is at an index < size when the bounds test precedes the filter; conjunct order regenerated from iterators.hpp each run); multi_fits / single_fits (TablesFit: for every topology whose rows are <= n_neighbors_max wide, in range and symmetric with multiplicity - proved for rasters in C07 - every receiver row of the multi router has 1..nmax entries and every donor row <= nmax; single router: exactly 1 receiver and <= nmax+1 donors (the +1 of the donors table is needed: a pit is its own donor); all indices < n; dfs and bfs have exactly n entries < n, <= n non-empty levels, level offsets are nmax-many+1, start at 0, end at n); accumulate_no_write_outside / basins_no_write_outside / *_frame (the sweeps neither read nor write entries >= n). Everything else (use-after-free, lifetime, signed overflow, scratch vectors of the basin graph, eroders) is the sanitizer build: every scenario family of the other properties runs under ASan+UBSan+_GLIBCXX_ASSERTIONS with asserts enabled; each distinct report is a violation. Partial by nature: Lean proves index logic of the model, not absence of UB in C++. raster_C08_fits: TablesFit for both routers on every raster (the TopoOk hypotheses discharged from C07).",
      "Lean 4 index-range / row-width theorems on the executed model + translator (conjunct order) + ASan/UBSan/libstdc++-assertion execution of all scenario families")
 _lvl("C09", "proof",
      "The model's update_routes is a pure function of (operators with their parameters, topology, mask, base levels, elevation) by construction; the only input through which the history of the C++ object can reach it is the iteration order of the hash set of base levels, handed over by the harness as a list. Theorems on the executed definitions: pfInit_perm / pflood_perm - for any two base-level lists that are permutations of each other the flood starts from the same state (queue order included, thanks to the (elevation, index) ordering of the queue) and returns the same elevations, for every grid and elevation field over a linear order; all other operators use the base levels only through membership. Correspondence: random histories on one object vs a fresh object vs the model, every observable bit for bit, input array never written.",
@@ -638,7 +639,7 @@ _lvl("C17", "proof",
      "Theorems on the executed grid model (constants regenerated from the source): prio_order (fixed value > fixed gradient > looped > core, decide over the regenerated precedences), paint_spec (for every raster with >= 2 nodes per axis: core strictly inside, the border's status on each non-corner border node, at each corner the one of the two meeting statuses with the larger precedence), rasterStatus_ok_iff / _error_iff / _error_kind / rasterStatus_ok / rasterStatus_ok_distinct (construction succeeds iff looped borders are symmetric and no override is out of range, looped, or on a looped node; which error kind the first offending entry yields; otherwise the array is the painted array with the overrides applied and looped appears exactly on the looped borders), the same for the profile grid (profileStatus_*), sortKeys_perm / sorted (std::map order), iterFwd_eq / iterRev_eq (iteration filtered by any predicate yields exactly (range size).filter p, resp. its reverse, for every size and predicate; built on skipFwd_stop). Default base levels = fixed-value nodes is a definition of the driver. Compared exhaustively over all 4^4 / 4^2 border mixes on small shapes, plus malformed override maps with error kinds, iteration in both directions for every filter.",
      "Lean 4 proofs on the executed status/iteration model (omega, decide over regenerated constants, list induction) + exhaustive border-mix correspondence")
 _lvl("C19", "proof",
-     "END-TO-END theorem on the executed Fs.Flow.basins over any single-direction graph assembled from a receiver forest (C06.SingleGraph: router output or spanning-tree resolver output) whose unmasked nodes never drain into masked ones (basins_spec): masked nodes get the reserved label; every unmasked node has the label of its receiver; the outlets are exactly the unmasked self-receivers, without duplicates, numbered consecutively from zero in bottom-up order; every unmasked node's label is the index of the outlet it drains to (two unmasked nodes share a label iff they drain to the same outlet; number of distinct labels = number of unmasked outlets); pits = outlets that are not base levels. Built on run_block / block_labels_agree and the block structure of the bottom-up order (dfs_blocks).",
+     "END-TO-END theorem on the executed Fs.Flow.basins over any single-direction graph assembled from a receiver forest (C06.SingleGraph: router output or spanning-tree resolver output) whose unmasked nodes never drain into masked ones (basins_spec): masked nodes get the reserved label; every unmasked node has the label of its receiver; the outlets are exactly the unmasked self-receivers, without duplicates, numbered consecutively from zero in bottom-up order; every unmasked node's label is the index of the outlet it drains to (two unmasked nodes share a label iff they drain to the same outlet; number of distinct labels = number of unmasked outlets); pits = outlets that are not base levels. Built on run_block / block_labels_agree and the block structure of the bottom-up order (dfs_blocks). Certificate: the model driver runs checkBasins on the labels / outlets / pits REPORTED BY THE C++ against the tables it reported at the last update (soundness checkBasins_sound, checkBasins_outlets, checkBasins_drain).",
      "Lean 4 fold proofs of the labelling sweep composed with the block structure of the bottom-up order + bit-exact correspondence + partition oracle")
 
 
